@@ -6,7 +6,8 @@ RULE = ('one case = a fresh KeyspaceGroup<MemStore> and k in 2..8 tasks that con
         'thorough: 20 000 seeds. Plus start-up races on a real node: a replicated write arriving while the store extension is still loading the persisted keyspaces must be refused or end up in the state peers obtain. The model outcome is schedule-independent by theorem one_state; non-trivial = k >= 2 (every case); distinct by hash')
 ASSUMPTIONS = ['parking_lot RwLock and the puppet mailbox behave as locks / FIFO channels (runtime facts; the interleavings are produced by the real runtime, the theorem covers all of them)']
 TRUSTED_BASE = ['correspondence: dcharness (real KeyspaceGroup::get_or_create_keyspace under tokio current_thread and multi_thread runtimes) vs dcdriver (Datacake.Group machine)']
-THEOREM_NOTE = 'Datacake.Group.step (Model/Group.lean); theorems one_state, same_instance'
+THEOREM_NOTE = 'Datacake.Group.step / stepN (Model/Group.lean); theorems one_state, same_instance; several names at once (Props/C18b): one_state_each, cow_loses_other_keyspace'
+LEAN_MODULES = ['C18', 'C18b']
 JOBS = 8
 SHRINK = False
 
@@ -19,6 +20,8 @@ def generate(rng, tier):
         for k in range(2, 9):
             for maxdelay in (0, 1, 3):
                 lines.append('race %d %d %d %d' % (k, rng.below(1 << 30), maxdelay, rng.choice([0, 0, 2, 8])))
+                # the same with the tasks spread over 2-3 FRESH keyspace names (first uses of different keyspaces overlap)
+                lines.append('race %d %d %d %d %d' % (k, rng.below(1 << 30), maxdelay, rng.choice([0, 0, 2, 8]), rng.choice([2, 2, 3])))
         lines.append('end'); cases.append(lines); idx += 1
     # start-up: a peer's replicated write arrives while the store extension of a restarting REAL node is still loading its
     # persisted keyspaces (after the metadata scan, before the state is installed)
